@@ -184,7 +184,7 @@ def header_part(chk, prop, tier, model_exe, stats, budget="run"):
         model = None
         if model_exe:
             model = common.Model(model_exe).ask([
-                S.model_line(leaf.cfg, data[leaf.byte_off:leaf.byte_off + leaf.cfg.c // 8], t, v, "opt")
+                S.struct_line(leaf.cfg, leaf.byte_off, data, t, v, "opt")
                 for leaf, data, t, v in meta])
         for j, (leaf, data, t, v) in enumerate(meta):
             chk.count()
@@ -222,7 +222,7 @@ def header_part(chk, prop, tier, model_exe, stats, budget="run"):
                                             "observed": rl, "expected": why}, key=fk)
             if model is not None:
                 keys = scalarcheck.KEYS[prop]
-                if scalarcheck.project(model[j], keys) != scalarcheck.project(local, keys):
+                if scalarcheck.project(model[j], keys) != scalarcheck.project(rl, keys):   # whole store (STRUCT op)
                     stats["model_disagreements"] += 1
                     if not why and stats["model_disagreements"] <= 8:
                         chk.violation("correspondence", {
@@ -461,7 +461,7 @@ def testdata_part(chk, prop, tier, model_exe, stats, budget="run"):
         model = None
         if model_exe:
             model = common.Model(model_exe).ask([
-                S.model_line(leaf.cfg, data[leaf.byte_off:leaf.byte_off + leaf.cfg.c // 8], t, v, "opt")
+                S.struct_line(leaf.cfg, leaf.byte_off, data, t, v, "opt")
                 for _f, _s, leaf, data, t, v in meta])
         for j, (fn_, sname, leaf, data, t, v) in enumerate(meta):
             chk.count()
@@ -497,7 +497,7 @@ def testdata_part(chk, prop, tier, model_exe, stats, budget="run"):
                                         "observed": rl, "expected": why}, key=fk)
             elif model is not None:
                 keys = scalarcheck.KEYS[prop]
-                if scalarcheck.project(model[j], keys) != scalarcheck.project(local, keys):
+                if scalarcheck.project(model[j], keys) != scalarcheck.project(rl, keys):   # whole store (STRUCT op)
                     stats["model_disagreements"] += 1
                     if stats["model_disagreements"] <= 8:
                         chk.violation("correspondence", {
